@@ -619,6 +619,57 @@ def check_add_key_settings(rep: Report, ctx, with_model=True):
 CHAIN_KDFS = [CHEAP_KDF, {'name': 'scrypt', 'n': 8, 'r': 2, 'p': 1}, {'name': 'blake2b'}]
 
 
+def long_password_probe(rep: Report, ctx):
+    """Keys made with passwords that are long and share a long head: whatever init / add-key ACCEPT must open with its
+    own password and with no near-miss (same first 64 bytes, longer, shorter).  A KDF that cannot take such a password
+    must refuse it without producing a key."""
+    heads = [b'H' * 64, b'H' * 63 + b'x']
+    for kdf in CHAIN_KDFS:
+        for pw in (b'H' * 64, b'H' * 64 + b'tail-one', b'H' * 100, b'short'):
+            for how in ('init', 'add-key', 'add-key-shared'):
+                be, res = make_repo(None, ctx.rng) if how != 'init' else (None, None)
+                settings = {'encryption': {'kdf': copy.deepcopy(kdf)}}
+                try:
+                    if how == 'init':
+                        r = real_init(settings_of(kdf=copy.deepcopy(kdf)), pw)
+                        if not r['accepted']:
+                            continue
+                        be, key = r['backend'], Repository(r['backend'], concurrent=1, cache_directory=None).serialize(r['result'].key)
+                    else:
+                        repo = Repository(be, concurrent=1, cache_directory=None)
+
+                        async def go():
+                            if how == 'add-key-shared':
+                                await repo.unlock(password=b'owner', key=Repository(be, concurrent=1, cache_directory=None).serialize(res.key))
+                            return await repo.add_key(password=pw, settings=settings, shared=how == 'add-key-shared')
+                        key = Repository(be, concurrent=1, cache_directory=None).serialize(run_async(go).new_key)
+                except BaseException as e:  # noqa
+                    if isinstance(e, (KeyboardInterrupt, SystemExit, MemoryError)):
+                        raise
+                    continue
+                rep.case(('long-password', kdf.get('name'), len(pw), how), nontrivial=True)
+                rep.count('long_password_keys_made')
+                sig = {'kind': 'foreign_password_unlocks', 'kdf': kdf.get('name')}
+                try:
+                    run_async(lambda: Repository(be, concurrent=1, cache_directory=None).unlock(password=pw, key=key))
+                except BaseException as e:  # noqa
+                    rep.violations.append({'what': f'{how} accepted a {len(pw)}-byte password with kdf {kdf.get("name")} but the key does not open with it ({exc_name(e)})',
+                                           'signature': dict(sig, kind='own_password_fails'), 'replay': {'kdf': kdf, 'password_len': len(pw), 'how': how}})
+                for bad in (pw[:-1], pw + b'x', pw[:64] + b'tail-two', pw[:64], pw[:63] + b'I' + pw[64:]):
+                    if bad == pw:
+                        continue
+                    try:
+                        run_async(lambda: Repository(be, concurrent=1, cache_directory=None).unlock(password=bad, key=key))
+                    except BaseException as e:  # noqa
+                        if isinstance(e, (KeyboardInterrupt, SystemExit, MemoryError)):
+                            raise
+                        continue
+                    rep.violations.append({'what': f'a key made by {how} with kdf {kdf.get("name")} and a {len(pw)}-byte password opens with a different '
+                                                   f'{len(bad)}-byte password', 'signature': sig,
+                                           'replay': {'kdf': kdf, 'password': pw.hex(), 'wrong_password': bad.hex(), 'how': how}})
+                    break
+
+
 def all_chains(maxlen):
     """All sequences of add-key operations of length <= maxlen: ('ind',), ('shared', src), ('clone', src)."""
     out = []
@@ -829,6 +880,7 @@ def run(ctx) -> Report:
     check_add_key_settings(rep, ctx)
     ciphers = [{'key_bits': 256}, {'name': 'chacha20_poly1305'}, {'key_bits': 128, 'nonce_bits': 64}]
     check_chains(rep, ctx, ctx.scale(25, None), ciphers if ctx.tier == 'thorough' else ciphers[:2])
+    long_password_probe(rep, ctx)
     check_utils(rep, ctx, ctx.scale(60, 400))
     rep.notes.append('not exercised: the default user KDF (scrypt n=2**20, 1 GiB) - every encrypted case names cheap KDF parameters')
     return rep
